@@ -14,6 +14,13 @@ Decided structurally (each a necessary condition of the behaviour):
   R7 confinement     every mutating effect reachable from the two entry points is on a path lexically
                      inside this layer's (layers_dir, layer_name) classes
   R9 uncached        uncached_layer passes constant DeleteLayer callbacks and cache = false
+  R8 tolerated stat  on a delete row no fallible symlink-following stat of an entry below the layer directory has its
+                     error absorbed (a dangling link would end the removal silently)
+  R10 reader/gates   "newly created" is only reported behind the reader's None, the reader returns None only when the
+                     layer directory does not exist, and a layer it reports present has a content-metadata file (read
+                     successfully or written: normalisation of a directory without TOML)
+  R12 writers        LayerRef::write_sboms removes the SBOM file of every format before it writes the new ones
+  (R4 also: the keep path re-reads the file as a type that holds every metadata table)
 Not decided: what the file-system calls do on disk; the lifecycle's restore model.
 
 The rows of R3 are the success outcomes of cached_layer split on every private helper of the handler's module that the
@@ -29,6 +36,7 @@ occur in a path value (inline_deep normal form).
 """
 from .lib.effects import Effects, MUTATING, REMOVING
 from .C01_helpers import outcomes2, norm, frame_of, Effects2, WorklistPaths
+from .C01_helpers import readers_of, gated_by_none, reader_contexts, reader_report, lossless_read, nested_follow_stats
 from .lib.paths import LayerPaths, cls_str, strip, sbom_formats_covered
 from .lib.value import vstr, walk
 
@@ -137,6 +145,9 @@ def run(ctx, rep):
     rep.rule('R6', 'SBOM format list used for removal covers every SbomFormat variant')
     rep.rule('R7', 'all mutating effects reachable from the entry points stay inside this layer\'s path classes')
     rep.rule('R9', 'uncached_layer: constant DeleteLayer callbacks, cache = false')
+    rep.rule('R8', 'delete rows: no fallible symlink-following stat below the layer directory whose error is absorbed')
+    rep.rule('R10', 'row gates: newly-created only behind the reader\'s None; reader: None only without layer directory, Some only with a content-metadata file')
+    rep.rule('R12', 'LayerRef::write_sboms replaces: the SBOM file of every format is removed before the new ones are written')
     rep.not_decided = ['disk contents after the file-system calls', 'the lifecycle restore model', 'concurrent modification']
     from . import layer_roles
     from .lib.paths import LayerPaths as _LP
@@ -168,6 +179,8 @@ def run(ctx, rep):
     for r in rows:
         if r not in expected_rows:
             rep.unproven('R3', 'row:' + r, cl.file, 'success outcome with unrecognised decision shape (%d outcome(s))' % len(rows[r]))
+
+    readers = readers_of(prog, outs, (RESTORED, INVALID))
 
     def klass(e):
         return LP.classify_effect(e) if e.path is not None else None
@@ -237,6 +250,15 @@ def run(ctx, rep):
                 bad = [e for e in o.may if e.kind in ('REMOVE_DIR', 'REMOVE_TREE', 'CHMOD')]
                 rep.check(not bad, 'R3', tag + '/must-not', site_where, 'no directory removal on the absent path',
                           'directory removal on the absent-layer path: %s' % bad[:2])
+                # R10: nothing is reported as newly created while a layer is present — the row lies behind the reader's None
+                if not readers:
+                    rep.unproven('R10', tag + '/gate', site_where, 'cannot find the function whose Option result separates "no layer" from "layer present"')
+                else:
+                    rep.check(gated_by_none(prog, o, readers), 'R10', tag + '/gate', site_where,
+                              'reported as newly created only when %s found no layer' % readers[0].rsplit('::', 1)[-1],
+                              'a layer is reported as newly created on a path where the reader did not report it absent: no callback '
+                              'is consulted and nothing of the previous layer is removed (conditions: %s)'
+                              % [vstr(sj)[:70] + '==' + str(sorted(cd.outcome) if isinstance(cd.outcome, frozenset) else cd.outcome) for cd, sj, _ in o.conds][:6])
             elif r in ('restored-delete', 'invalid-delete'):
                 c, subj, lv = dec
                 after = o.region(c, lv, must)
@@ -266,6 +288,13 @@ def run(ctx, rep):
                           {'row': r, 'must': summary['must']})
                 for cname, ok in (('DIR (incl. env*, exec.d, files)', bool(rm_dir)), ('TOML', bool(rm_toml))):
                     rep.check(ok, 'R5', tag + '/' + cname.split(' ')[0], site_where, cname + ' removed', cname + ' not removed')
+                # R8: tolerated errors of the removal must not be able to come from entries below the layer directory
+                nfs = nested_follow_stats(prog, sl, o.region(c, lv, o.may), klass, E)
+                for e, verdict, msg in nfs:
+                    (rep.violated if verdict == 'violated' else rep.unproven)('R8', tag + '/nested-follow-stat', e.where(), msg)
+                if not nfs:
+                    rep.holds('R8', tag + '/nested-follow-stat', site_where,
+                              'no fallible symlink-following stat of an entry below the layer directory is absorbed after the delete decision')
             elif r == 'restored-keep':
                 c, subj, lv = dec
                 rep.check(bool(has(o.region(c, lv, must), {'WRITE'}, is_toml)), 'R3', tag + '/must', site_where,
@@ -284,8 +313,12 @@ def run(ctx, rep):
                           'ReplaceMetadata path removes/creates entries: %s' % [(e.kind, e.via()) for e in reg[:3]])
             # ---- R1 / R4: data written to the TOML ---------------------------------------------------
             # (`File::create(p)?.write_all(data)` carries its data as a second argument, like `fs::write(p, data)`)
-            for e in [e for e in must if e.kind == 'WRITE' and is_toml(klass(e)) and len(e.args) >= 2 and
-                      e.call.is_('std::fs::write', 'std::fs::File::create', 'std::fs::File::create_new')]:
+            seen_writes = [e for e in must if e.kind == 'WRITE' and is_toml(klass(e)) and len(e.args) >= 2 and
+                           e.call.is_('std::fs::write', 'std::fs::File::create', 'std::fs::File::create_new')]
+            if not seen_writes:
+                # fail closed: a row whose TOML write carries no visible data has no R1 / R4 instance at all
+                rep.unproven('R1', tag + '/types', site_where, 'no write of the content metadata file with visible data on this row: the types written cannot be checked')
+            for e in seen_writes:
                 # normal form of the serialised value: closures handed to a shared read-update-write helper are applied
                 data = norm(sl, e.args[1])
                 lcm = find_agg(data, 'LayerContentMetadata')
@@ -303,6 +336,12 @@ def run(ctx, rep):
                     rep.check(same_file and fields == ['.types'], 'R4', tag + '/keep-frame', e.where(),
                               'serialises the value read from the same TOML with only .types replaced',
                               'keep rewrite is not frame-preserving: base=%s updated=%s' % (vstr(base)[:100], fields))
+                    if same_file:
+                        ll, why = lossless_read(prog, base)
+                        if ll is None:
+                            rep.unproven('R4', tag + '/lossless', e.where(), 'cannot tell whether the keep path re-reads the metadata without loss: ' + why)
+                        else:
+                            rep.check(ll, 'R4', tag + '/lossless', e.where(), 'the file is re-' + why, why)
                     tv = some_payload(repl.get('.types', ('unknown',)))
                     ok, why = types_ok(cl, tv, True, sl) if tv is not None else (False, 'types not Some(..)')
                     rep.check(ok, 'R1', tag + '/types', e.where(), why, 'wrong types on keep: ' + why)
@@ -375,9 +414,51 @@ def run(ctx, rep):
                 if top is None:
                     rep.violated('R7', 'LayerRef/%s/%s' % (f.path.split('::')[-1], e.call.name), e.where(),
                                  'layer writer touches a path outside the layer: ' + vstr(e.path)[:160])
+            elif e.kind in MUTATING and e.path is not None:
+                # removals / permission changes / renames of a writer are confined like its writes
+                if not lp.inside_layer(lp.classify_effect(e)):
+                    rep.violated('R7', 'LayerRef/%s/%s' % (f.path.split('::')[-1], e.call.name), e.where(),
+                                 'layer writer removes / alters a path outside the layer: ' + vstr(e.path)[:160])
     rep.check(classes <= {'DIR', 'TOML', 'SBOM'} and classes >= {'DIR', 'TOML', 'SBOM'}, 'R5', 'artifact-classes', '-',
               'layer writers create exactly the classes DIR/*, TOML, SBOM — all three are demanded of the delete rows',
               'layer writers create classes %s; the delete table knows DIR, TOML, SBOM' % sorted(classes))
+
+    # ---- R10: the reader -----------------------------------------------------------------------------
+    if not readers:
+        rep.unproven('R10', 'reader/none-gate', cl.file, 'no function found whose Option result separates "no layer" from "layer present" on the rows with a callback decision')
+    for rname in readers:
+        reader = prog.fns[rname]
+        rep.analysed(reader)
+        ctxs = reader_contexts(prog, sl, cl, reader)
+        if not ctxs:
+            rep.unproven('R10', 'reader/context', cl.file, 'no call of %s found from cached_layer' % rname)
+        done = set()
+        for e, m in ctxs:
+            for subject, status, wh, msg in reader_report(prog, sl, E, reader, m, LP):
+                if (subject, status, msg) in done:
+                    continue
+                done.add((subject, status, msg))
+                {'holds': rep.holds, 'violated': rep.violated, 'unproven': rep.unproven}[status]('R10', 'reader/' + subject, wh, msg)
+
+    # ---- R12: replace semantics of the SBOM writer ----------------------------------------------------
+    ws = [f for f in prog.find(LAYER_REF_WRITERS) if f.path.endswith('::write_sboms')]
+    if len(ws) != 1:
+        rep.unproven('R12', 'write_sboms/replaces', '-', 'LayerRef::write_sboms not found')
+    else:
+        f = ws[0]
+        lp = layer_ref_paths(f, E)
+        must = E.expand(f, 'must')
+        rm = [e for e in must if e.kind == 'REMOVE_FILE' and e.path is not None and (lp.classify_effect(e) or ('',))[0] == 'SBOM']
+        wr = [e for e in must + E.expand(f, 'may') if e.kind == 'WRITE' and e.path is not None and (lp.classify_effect(e) or ('',))[0] == 'SBOM']
+        all_variants = sorted(v['name'] for v in prog.adt('libcnb_data::sbom::SbomFormat')['variants'])
+        got = sorted(sbom_formats_covered(rm, lambda pv: lp.classify(pv) if pv is not None else None))
+        order = [id(e) for e in must]
+        wr_must = [e for e in wr if id(e) in order]
+        in_order = not rm or not wr_must or max(order.index(id(e)) for e in rm) < min(order.index(id(e)) for e in wr_must)
+        rep.check(got == all_variants and bool(wr) and in_order, 'R12', 'write_sboms/replaces', '%s:%d' % (f.file, f.line),
+                  'every success path removes <layer>.sbom.* of all formats %s before writing the given SBOMs' % got,
+                  'write_sboms does not replace: SBOM files removed on every success path only for formats %s of %s (stale SBOMs of '
+                  'an earlier write survive), writes found: %d, removal before the writes: %s' % (got, all_variants, len(wr), in_order))
 
     # ---- R9 uncached ------------------------------------------------------------------------------
     # the dispatch into the handler is an effect of the entry point: its arguments are read in the entry's own terms
